@@ -26,7 +26,7 @@ RULE = ("case = (sde_type, noise_type, sizes, SDE seed, adjoint-parameter subset
         "distinct = distinct case keys")
 ASSUMPTIONS = ["dense reference built with torch.autograd.functional.jacobian; agreement demanded to 1e-10 relative",
                "differentiability under enable_grad is checked by directional finite differences (eps=1e-6, tol 1e-5)"]
-REQUIRED_COUNTERS = ["drift_checked", "gprod_checked", "milstein_term_checked", "no_grad_checked", "grad_fd_checked",
+REQUIRED_COUNTERS = ["time_switched_parameter_cases", "evaluations_before_the_checked_one", "drift_checked", "gprod_checked", "milstein_term_checked", "no_grad_checked", "grad_fd_checked",
                      "grad_mode_values_checked",
                      "unused_param_cases", "subset_param_cases"]
 THRESHOLDS = {"rel": 1e-10, "fd_rel": 1e-5}
@@ -62,6 +62,13 @@ def run_case(case):
     viol, cnt, mx = [], {}, {}
     B, d, m = rng.choice([1, 2]), rng.choice([2, 3]), rng.choice([2, 3])
     sde = zoo.NeuralSDE(d, m, nt, st, seed=rng.randrange(10 ** 6), gscale=0.8)
+    # "at every point": the vector fields are functions of the evaluation point alone. In 40 % of the cases which
+    # parameters the SDE uses depends on the time (two networks, switched at forward time 1), and the AdjointSDE object
+    # is first evaluated on the OTHER side of the switch - nothing it learnt there may carry over
+    switched = rng.random() < 0.4
+    if switched:
+        sde = zoo.TimeSwitched(sde, zoo.NeuralSDE(d, m, nt, st, seed=rng.randrange(10 ** 6), gscale=0.8), 1.0)
+        cnt["time_switched_parameter_cases"] = 1
     mm = sde.m
     named = list(sde.named_parameters())
     mode = rng.choice(["all", "all", "subset"])
@@ -147,6 +154,14 @@ def run_case(case):
             viol.append({"mechanism": f"adjoint_{name}_mismatch:{st}:{nt}:{'+'.join(badb)}",
                          "detail": f"rel err {e:.3e} {ctx}"})
 
+    if switched:
+        t_other = torch.tensor(-0.5 if float(-t) >= 1.0 else -1.5)
+        for ctxm in (torch.no_grad(), torch.enable_grad()):
+            with ctxm:
+                adj.f(t_other, aug), adj.g_prod(t_other, aug, v), adj.f_and_g_prod(t_other, aug, v)
+                if nt == "diagonal":
+                    adj.g_prod_and_gdg_prod(t_other, aug, v, v)
+        cnt["evaluations_before_the_checked_one"] = 1
     with torch.no_grad():
         f_out = adj.f(t, aug)
         gp_out = adj.g_prod(t, aug, v)
